@@ -108,7 +108,15 @@ pub fn run(ctx: &mut Ctx) {
                     }
                     Q::Tap(t)
                 }
-                8 => Q::WitnessMut(i, gen::bytes(&mut ctx.rng, 8)),
+                8 => {
+                    // one item in three looks like an annex (leading 0x50): the digest of a query that
+                    // passes no annex must not depend on what the witness stack holds
+                    let mut item = gen::bytes(&mut ctx.rng, 8);
+                    if ctx.rng.gen_range(0..3) == 0 {
+                        item[0] = 0x50;
+                    }
+                    Q::WitnessMut(i, item)
+                }
                 _ => {
                     // repeat an earlier query verbatim
                     match hist.iter().filter(|q| !matches!(q, Q::WitnessMut(..))).last() {
@@ -159,6 +167,13 @@ pub fn run(ctx: &mut Ctx) {
                 _ => String::new(),
             };
             ctx.check(warm == fresh, &format!("warm-cache!=fresh-cache/{}/{}/state{}", kind(q), qcls, st.map(|s| s.to_string()).unwrap_or("?".into())), d);
+            // "over an unchanged transaction": filling in script witnesses does not change the
+            // transaction as far as signature hashes are concerned, so a fresh cache over the
+            // transaction as it was before any witness was pushed must give the same answer too
+            let fresh0 = ask(&mut SighashCache::new(&original), &prevs, q, &genesis);
+            ctx.check(warm == fresh0, &format!("warm-cache!=fresh-cache-on-the-transaction-before-witnesses-were-filled-in/{}/{}", kind(q), qcls), || {
+                json!({"fresh_on_original": format!("{:?}", fresh0.as_ref().map(|h| hex(h))), "in": d()})
+            });
             // Ok/Err agreement with the independent algorithm on the current transaction (digest
             // equality with the reference is C03's job; here it only tells which queries are defined)
             let reserved = matches!(q, Q::Tap(t) if t.ty == elements::SchnorrSighashType::Reserved);
